@@ -74,6 +74,14 @@ def handover(d, cfg):
     out = []
     t0 = sim.now
     H = min(cfg['hold'], PEER_HOLD)
+    if sim.state == 'ESTABLISHED':
+        # an Established session is inherited as it is: its hold time is the one negotiated by the history
+        # (the first acceptable OPEN after the last successful connect; later OPENs are ignored by the agent)
+        last_ok = max(i for i, ev in enumerate(d.history) if ev[0] == 'ok')
+        for ev in d.history[last_ok:]:
+            if ev[0] == 'open' and ev[1] in ('valid', 'h0', 'h3'):
+                H = min(cfg['hold'], ev[2])
+                break
     pending = {'live': len(ss.live_connectors(sim)), 'attempts': len(sim.reactor.attempts()),
                'timers': [c.name for c in sim.reactor.pending()]}
     before_state = sim.state
